@@ -188,7 +188,7 @@ fn corner_strategy(tier: Tier) -> BoxedStrategy<CornerCase> {
         .boxed()
 }
 
-fn check_corner(c: &CornerCase, st: &mut Stats) -> CheckResult {
+pub fn check_corner(c: &CornerCase, st: &mut Stats) -> CheckResult {
     // Naive is ~20x slower on 65536 positions; keep the case but at the smallest size
     let b = if c.eng == Eng::Naive || c.eng == Eng::Neon { 2 } else { c.b };
     let rd = Round {
